@@ -41,7 +41,7 @@ func (r *c05Reader) index(path string) int {
 func (r *c05Reader) content(i int) string {
 	s := ""
 	for _, t := range r.imports[i] {
-		s += "import " + c05TFiles[t][:2] + "\n"
+		s += "import " + c05TFiles[t][:2] + c05Alias(t, " as ") + "\n"
 	}
 	return s + "App" + c05TFiles[i][1:2] + ":\n    ...\n"
 }
@@ -72,6 +72,15 @@ func (r *c05Reader) ReadHashBranch(ctx context.Context, p string) ([]byte, retri
 
 var c05TImports [][]int
 
+// c05Alias: every import of a file other than the root renames it, always to the same
+// name ("import f1 as Al1"), so the consistency check on repeated imports has work to do.
+func c05Alias(t int, prefix string) string {
+	if t == 0 {
+		return ""
+	}
+	return prefix + "Al" + string(rune('0'+t))
+}
+
 // c05ParseImportsStub stands in for parseImports under the executor.
 func c05ParseImportsStub(parent importDef, src sourceCtxHelper, input string) ([]importDef, error) {
 	i := -1
@@ -83,7 +92,9 @@ func c05ParseImportsStub(parent importDef, src sourceCtxHelper, input string) ([
 	var out []importDef
 	if i >= 0 {
 		for _, t := range c05TImports[i] {
-			out = append(out, newImportDef(c05TFiles[t]))
+			id := newImportDef(c05TFiles[t])
+			id.appname = c05Alias(t, "")
+			out = append(out, id)
 		}
 	}
 	return out, nil
